@@ -229,6 +229,9 @@ def c02(acc):
         mc_source(acc, k, faults=False, frag=mode, name="MC_Source-" + mode)
         _, pf = mc_reader(acc, k, "default", ["Inv_RefMatch"], frag=mode, name="MC_Reader-c02" + mode)
         replay_reader(acc, pf, "chunks", extra=["--max-all-cuts", 9 if q else 11, "--pair-cuts", 40])
+    # raw bytes taken through Reader::stream() between events: the positions afterwards do not depend on the source either
+    _, pst = mc_ops(acc, 2, 0, 0, "default", [], ["Inv_StreamTiling"], "MC_Ops-c02stream", streams=2)
+    replay_reader(acc, pst, "chunks", extra=["--max-all-cuts", 0, "--stride", 3 if q else 1])
     trace_reader(acc, 300 if q else 3000, "doc,mut,rand,corpus,small", "plain", sources="all", max_len=500 if q else 3000)
     trace_source(acc, 300 if q else 3000, max_len=200 if q else 1500)
     return acc.finish()
@@ -385,6 +388,10 @@ def c04(acc):
         mc_ops(acc, 3, 1, 0, "default", keys, invs, "MC_Ops-c04b", emit=False)
     _, p3 = mc_reader(acc, 3, "cover", ["Inv_Nesting", "Inv_RefMatch"], name="MC_Reader-c04")
     replay_reader(acc, p3, "slice")
+    # the open-element stack is also maintained by the skip calls (read_to_end* on every source, also on an expanded <a/>)
+    _, p4 = mc_ops(acc, 3, 1, 1, "four", ["cen"], invs + ["Inv_SkipRef"], "MC_Ops-c04skip")
+    replay_reader(acc, p4, "slice", extra=["--stride", 3 if q else 1])
+    replay_reader(acc, p4, "chunks", extra=["--max-all-cuts", 0, "--stride", 5 if q else 2])
     trace_reader(acc, 400 if q else 4000, "doc,mut,corpus", "flips", sources="all", max_len=400 if q else 3000)
     return acc.finish()
 
